@@ -11,6 +11,8 @@
 (declare-datatypes ((SRes 0)) (((SFail) (SOk (st Store)))))
 
 (define-fun-rec len ((l TList)) Int (ite ((_ is nil) l) 0 (+ 1 (len (tl l)))))
+; L-LEN-NONNEG (proved by induction in vf/lemmas.py)
+(assert (forall ((l TList)) (! (>= (len l) 0) :pattern ((len l)))))
 (define-fun-rec nth ((l TList) (i Int)) Term (ite (<= i 0) (hd l) (nth (tl l) (- i 1))))
 (define-fun isbound ((s Store) (v Int)) Bool ((_ is Bound) (select s v)))
 
